@@ -744,8 +744,18 @@ func externals() map[string]ExtFn {
 				if m.Integral(x.A) {
 					return x
 				}
+				// rounding an already rounded value (plus an integer offset) changes nothing
+				if k := len(x.Tr); k > 0 && isRounding(x.Tr[k-1]) && x.Off == math.Trunc(x.Off) {
+					return x
+				}
 				r := x
-				r.Tr = append(append([]string{}, x.Tr...), strings.ToLower(name))
+				r.Tr = append([]string{}, x.Tr...)
+				if x.Off != 0 {
+					// keep the order of operations: the offset was applied BEFORE this rounding
+					r.Tr = append(r.Tr, fmt.Sprintf("%+g", x.Off))
+					r.Off = 0
+				}
+				r.Tr = append(r.Tr, strings.ToLower(name))
 				return r
 			}
 			panic(m.undecided("math.%s on %T", name, a[0]))
